@@ -572,6 +572,27 @@ func (g *FnGen) evalCall(env *Env, x *ECall) SVal {
 			}
 		}
 		env.fail("no iterator for loop %d", k)
+	case "unchangedMaps":
+		// unchangedMaps("map[K]V", e1, ...): every map object of that type other than e1.. (and allocated before the call) is as in the old state
+		ks := w.expandKey(x.Args[0].(*EStr).V)
+		var excl []string
+		for i := 1; i < len(x.Args); i++ {
+			excl = append(excl, fmt.Sprintf("(not (= r! %s))", g.eval(env.with(env.old), x.Args[i]).S))
+		}
+		cond := fmt.Sprintf("(and (<= r! %s) %s)", g.allocTerm(env.old).S, strings.Join(excl, " "))
+		var eqs []string
+		for _, k := range ks {
+			if _, ok := w.heapSort[k]; ok {
+				eqs = append(eqs, fmt.Sprintf("(= (select %s r!) (select %s r!))", g.hget(env.st, k).S, g.hget(env.old, k).S))
+			}
+		}
+		return SVal{Term{fmt.Sprintf("(forall ((r! Int)) (=> %s (and %s true)))", cond, strings.Join(eqs, " ")), "Bool"}, boolT}
+	case "arr":
+		a := arg(0)
+		if !strings.HasPrefix(a.Sort, "Slice_") {
+			env.fail("arr of non-slice")
+		}
+		return SVal{Term{fmt.Sprintf("(arr_%s %s)", a.Sort, a.S), "Int"}, nil}
 	case "funcval":
 		key := x.Args[0].(*EStr).V
 		f := w.funcs[key]
